@@ -52,7 +52,11 @@ class DIB(ABC):
         """Determine dib type out of dib type code."""
         if len(raw) < 2:
             raise CouldNotParseKNXIP("could not parse DIB header")
-        dtc = DIBTypeCode(raw[1])
+        try:
+            dtc = DIBTypeCode(raw[1])
+        except ValueError:
+            # unknown description type codes are kept as DIBGeneric
+            return DIBGeneric()
 
         if dtc == DIBTypeCode.DEVICE_INFO:
             return DIBDeviceInformation()
@@ -146,10 +150,13 @@ class DIBDeviceInformation(DIB):
             raise CouldNotParseKNXIP("wrong connection header length")
         if raw[0] != DIBDeviceInformation.LENGTH:
             raise CouldNotParseKNXIP("wrong connection header length")
-        if DIBTypeCode(raw[1]) != DIBTypeCode.DEVICE_INFO:
+        if raw[1] != DIBTypeCode.DEVICE_INFO.value:
             raise CouldNotParseKNXIP("DIB is no device info")
 
-        self.knx_medium = KNXMedium(raw[2])
+        try:
+            self.knx_medium = KNXMedium(raw[2])
+        except ValueError as err:
+            raise CouldNotParseKNXIP(f"unsupported KNX medium: {raw[2]:#x}") from err
         # last bit of device_status. All other bits are unused
         self.programming_mode = bool(raw[3])
         self.individual_address = IndividualAddress.from_knx(raw[4:6])
@@ -269,13 +276,18 @@ class _DIBServiceFamilies(DIB):
         length = raw[0]
         if (length < DIB_HEADER_LENGTH) or (len(raw) < length) or (length % 2):
             raise CouldNotParseKNXIP("DIB wrong size")
-        if DIBTypeCode(raw[1]) != self.type_code:
+        if raw[1] != self.type_code.value:
             raise CouldNotParseKNXIP(
                 f"DIB has wrong type code for {self.__class__.__name__}"
             )
 
         for pos in range(2, length, 2):
-            name = DIBServiceFamily(raw[pos])
+            try:
+                name = DIBServiceFamily(raw[pos])
+            except ValueError as err:
+                raise CouldNotParseKNXIP(
+                    f"unsupported service family: {raw[pos]:#x}"
+                ) from err
             version = raw[pos + 1]
             self.families.append(DIBSuppSVCFamilies.Family(name, version))
         return length
@@ -350,7 +362,7 @@ class DIBTunnelingInfo(DIB):
         length = raw[0]
         if (length < 4) or (len(raw) < length) or (length % 4):
             raise CouldNotParseKNXIP("DIB wrong size")
-        if DIBTypeCode(raw[1]) != DIBTypeCode.TUNNELING_INFO:
+        if raw[1] != DIBTypeCode.TUNNELING_INFO.value:
             raise CouldNotParseKNXIP(
                 f"DIB has wrong type code for {self.__class__.__name__}"
             )
